@@ -94,6 +94,8 @@ def wrap_any(v):
 
 def unwrap(v):
     """value as seen by contract code: definite ints as raw z3 terms."""
+    if isinstance(v, FragResult):
+        return v
     if isinstance(v, Opt) and v.definite():
         return S._i(v.v)
     if isinstance(v, BoolV):
@@ -342,6 +344,8 @@ class Exec:
         fn = self.unit.fn
         st = State()
         argnames = [a.arg for a in fn.args.args]
+        if getattr(c.cls, "fragment", None):
+            argnames = list(c.params)  # a fragment's inputs are the local variables it reads
         if argnames and argnames[0] == "self" and "self" not in c.params:
             raise Unsupported("method without a declared 'self' parameter")
         defaults = dict(zip(argnames[len(argnames) - len(fn.args.defaults):], fn.args.defaults))
@@ -372,7 +376,17 @@ class Exec:
         if body and isinstance(body[0], ast.Expr) and isinstance(getattr(body[0], "value", None), ast.Constant) \
                 and isinstance(body[0].value.value, str):
             body = body[1:]
+        frag = getattr(c.cls, "fragment", None)
+        if frag:
+            # a contiguous block of statements of the real function, located mechanically by the source text of its
+            # first and last statements; everything outside the block is NOT verified by this unit (stated in evidence)
+            body = find_fragment(fn, frag)
+            self.fragment_lines = (body[0].lineno, getattr(body[-1], "end_lineno", body[-1].lineno))
+            for g in self.ghosts:
+                pass
         for kind, st2, payload in self.exec_block(body, st):
+            if frag and kind in ("fall", "continue"):
+                kind, payload = "return", (FragResult(dict(st2.env)), getattr(body[-1], "end_lineno", body[-1].lineno))
             self.finish(kind, st2, payload, fn)
         return self.obls
 
@@ -498,6 +512,12 @@ class Exec:
             return SeqV(S.f_rev(base.t), base.kind)
         if attr == "reverse" and isinstance(base, TupV):
             return TupV(base.items[::-1], base.kind)
+        if attr == "insert" and isinstance(base, TupV) and base.kind == "list" and isinstance(args[0], Opt):
+            iv = z3.simplify(S.as_int(args[0]))
+            if z3.is_int_value(iv):
+                items = list(base.items)
+                items.insert(iv.as_long(), args[1])
+                return TupV(items, "list")
         if attr == "extend" and isinstance(base, TupV) and isinstance(args[0], TupV):
             return TupV(base.items + args[0].items, "list")
         if attr == "extend" and isinstance(base, SeqV) and isinstance(args[0], SeqV):
@@ -1860,7 +1880,55 @@ def _mod_operands(lname, a):
         return [(a[0], a[1])]
     if lname == "mod_multiple":
         return [(a[0] * a[1], a[1])]
+    if lname == "mod_neg_zero":
+        return [(a[0], a[1]), (-a[0], a[1])]
     return []
+
+
+class FragResult:
+    """final local variables of a verified fragment, as seen by the contract (attribute access)"""
+
+    def __init__(self, env):
+        self._env = env
+
+    def __getattr__(self, k):
+        env = object.__getattribute__(self, "_env")
+        if k not in env:
+            raise AttributeError(k)
+        return unwrap(env[k])
+
+
+def find_fragment(fn, frag):
+    first, last = frag["first"].strip(), frag["last"].strip()
+
+    def head(stmt):
+        return ast.unparse(stmt).splitlines()[0].strip()
+
+    def search(body):
+        for i, st_ in enumerate(body):
+            if head(st_) == first:
+                for j in range(i, len(body)):
+                    if head(body[j]) == last:
+                        return body[i:j + 1]
+                raise Unsupported(f"fragment end {last!r} not found after {first!r}")
+            for attr in ("body", "orelse", "finalbody", "handlers"):
+                sub = getattr(st_, attr, None)
+                if isinstance(sub, list) and sub:
+                    if attr == "handlers":
+                        for h in sub:
+                            r = search(h.body)
+                            if r:
+                                return r
+                    else:
+                        r = search(sub)
+                        if r:
+                            return r
+        return None
+
+    r = search(fn.body)
+    if not r:
+        raise Unsupported(f"fragment start {first!r} not found in {fn.name}")
+    return r
 
 
 class _NotStatic(Exception):
